@@ -51,6 +51,10 @@ pub fn all() -> Vec<Scenario> {
         Scenario { name: "scope_node_outlives_bind", props: &["C04", "C03"], run: scope_node_outlives_bind },
         Scenario { name: "scope_node_kept_while_bind_input_grows", props: &["C03", "C02", "C11"], run: scope_node_kept_while_bind_input_grows },
         Scenario { name: "observe_scope_node_of_unobserved_bind", props: &["C04"], run: observe_scope_node_of_unobserved_bind },
+        Scenario { name: "nested_var_write_inside_deferred_modify", props: &["C04", "C08"], run: nested_var_write_inside_deferred_modify },
+        Scenario { name: "on_update_added_from_on_update_handler", props: &["C04"], run: on_update_added_from_on_update_handler },
+        Scenario { name: "unsubscribe_from_drop_of_handler_capture", props: &["C04", "C10", "C12"], run: unsubscribe_from_drop_of_handler_capture },
+        Scenario { name: "state_unsubscribe_before_first_stabilise", props: &["C09", "C10"], run: state_unsubscribe_before_first_stabilise },
     ]
 }
 
@@ -893,5 +897,128 @@ fn expert_dependency_on_invalidated_node() -> Result<(), String> {
         st.stabilise();
         check!(o.try_get_value() == Err(ObserverError::ObservingInvalid), "step {c}: {:?}", o.try_get_value());
     }
+    Ok(())
+}
+
+
+/// A node function writes one variable from inside the closure of a deferred `modify` / `update` /
+/// `replace_with` of another variable (defect #20).
+fn nested_var_write_inside_deferred_modify() -> Result<(), String> {
+    for how in 0..3 {
+        let st = IncrState::new();
+        let trigger = st.var(0i64);
+        let a = st.var(1i64);
+        let b = st.var(2i64);
+        let (a2, b2) = (a.clone(), b.clone());
+        let w = trigger.map(move |t| {
+            let b3 = b2.clone();
+            match how {
+                0 => a2.modify(move |x| {
+                    b3.set(7);
+                    *x += 1;
+                }),
+                1 => a2.update(move |x| {
+                    b3.set(7);
+                    x + 1
+                }),
+                _ => {
+                    a2.replace_with(move |x| {
+                        b3.set(7);
+                        *x + 1
+                    });
+                }
+            }
+            *t
+        });
+        let (oa, ob, ow) = (a.observe(), b.observe(), w.observe());
+        st.stabilise();
+        check!(oa.try_get_value() == Ok(1) && ob.try_get_value() == Ok(2) && ow.try_get_value() == Ok(0), "how={how}: the writes were visible in the stabilise that made them: {:?} {:?}", oa.try_get_value(), ob.try_get_value());
+        check!(a.get() == 2 && b.get() == 7, "how={how}: after the stabilise a={} b={}, expected 2 and 7", a.get(), b.get());
+        check!(!st.is_stable(), "how={how}: is_stable() after deferred writes to observed variables");
+        st.stabilise();
+        check!(oa.try_get_value() == Ok(2) && ob.try_get_value() == Ok(7), "how={how}: next stabilise gives {:?} {:?}", oa.try_get_value(), ob.try_get_value());
+    }
+    Ok(())
+}
+
+/// `Incr::on_update` called from inside an `on_update` handler of the same node (defect #21).
+fn on_update_added_from_on_update_handler() -> Result<(), String> {
+    let st = IncrState::new();
+    let v = st.var(1i64);
+    let w = v.map(|x| x + 1);
+    let log: Rc<RefCell<Vec<String>>> = Rc::new(RefCell::new(vec![]));
+    let weak = w.weak();
+    let (l1, added) = (log.clone(), Rc::new(Cell::new(false)));
+    w.on_update(move |u| {
+        l1.borrow_mut().push(format!("outer {:?}", u));
+        if !added.replace(true) {
+            let l2 = l1.clone();
+            weak.upgrade().unwrap().on_update(move |u| l2.borrow_mut().push(format!("inner {:?}", u)));
+        }
+    });
+    let o = w.observe();
+    st.stabilise();
+    check!(log.borrow().as_slice() == ["outer Necessary(2)"], "round 1: {:?}", log.borrow());
+    v.set(5);
+    st.stabilise();
+    let got = log.borrow().clone();
+    check!(got.len() == 3 && got[1..].contains(&"outer Changed(6)".to_string()) && got[1..].iter().any(|s| s.starts_with("inner ") && s.ends_with("(6)")), "round 2: {:?}", got);
+    check!(o.try_get_value() == Ok(6), "value {:?}", o.try_get_value());
+    Ok(())
+}
+
+/// A value captured by an update handler unsubscribes a token through the `WeakState` when it is
+/// dropped (the guard pattern of tests/fixed_point.rs); the handler is dropped when its observer is
+/// unlinked inside stabilise (defect #22).
+fn unsubscribe_from_drop_of_handler_capture() -> Result<(), String> {
+    struct Guard {
+        state: incremental::WeakState,
+        token: incremental::SubscriptionToken,
+    }
+    impl Drop for Guard {
+        fn drop(&mut self) {
+            self.state.unsubscribe(self.token);
+        }
+    }
+    let st = IncrState::new();
+    let v = st.var(1i64);
+    let other = v.observe();
+    let hits = Rc::new(Cell::new(0));
+    let h = hits.clone();
+    let tok_other = other.subscribe(move |_| h.set(h.get() + 1));
+    let o = v.observe();
+    let g = Guard { state: st.weak(), token: tok_other };
+    o.subscribe(move |_| {
+        let _ = &g;
+    });
+    st.stabilise();
+    check!(hits.get() == 1, "round 1: {} deliveries", hits.get());
+    drop(o);
+    st.stabilise();
+    // the guard has run: the other observer's subscription is cancelled, the observer itself is untouched
+    v.set(2);
+    st.stabilise();
+    check!(hits.get() == 1, "the subscription cancelled by the guard still received updates: {}", hits.get());
+    check!(other.try_get_value() == Ok(2), "other observer {:?}", other.try_get_value());
+    Ok(())
+}
+
+/// `IncrState::unsubscribe(token)` on an observer that has not been through a stabilise yet
+/// (defect #23): no callback may run after unsubscribe.
+fn state_unsubscribe_before_first_stabilise() -> Result<(), String> {
+    let st = IncrState::new();
+    let v = st.var(1i64);
+    let o = v.observe();
+    let hits = Rc::new(Cell::new(0));
+    let (h1, h2) = (hits.clone(), hits.clone());
+    let tok = o.subscribe(move |_| h1.set(h1.get() + 1));
+    let _tok2 = o.subscribe(move |_| h2.set(h2.get() + 100));
+    st.unsubscribe(tok);
+    st.stabilise();
+    check!(hits.get() == 100, "deliveries after IncrState::unsubscribe on a new observer: {} (expected only the other subscription: 100)", hits.get());
+    v.set(2);
+    st.stabilise();
+    check!(hits.get() == 200, "second round: {}", hits.get());
+    check!(o.try_get_value() == Ok(2), "observer {:?}", o.try_get_value());
     Ok(())
 }
